@@ -626,7 +626,8 @@ func (app *App) handleTrustedProxy(ipAddress string) {
 		if ip == nil {
 			log.Warnf("IP address %q could not be parsed", ipAddress)
 		} else {
-			app.config.TrustProxyConfig.ips[ipAddress] = struct{}{}
+			// keyed by the canonical text, the form IsProxyTrusted looks the peer address up in
+			app.config.TrustProxyConfig.ips[ip.String()] = struct{}{}
 		}
 	}
 }
